@@ -673,7 +673,7 @@ void GridSequence::setAnisotropicRefinement(TypeDepth type, int min_growth, int 
     int level = 0;
     do{
         updateGrid(++level, type, weights, level_limits);
-    }while(getNumNeeded() < min_growth);
+    }while(getNumNeeded() < min_growth and not MultiIndexManipulations::isLimitSaturated(points, needed, level_limits));
 }
 void GridSequence::setSurplusRefinement(double tolerance, int output, const std::vector<int> &level_limits){
     clearRefinement();
